@@ -7,6 +7,7 @@ import (
 	"errors"
 	"fmt"
 	"io"
+	"math/big"
 	"net/http"
 	"strings"
 	"sync"
@@ -69,6 +70,12 @@ func (t *c13Transport) RoundTrip(req *http.Request) (*http.Response, error) {
 	switch r.kind {
 	case "neterr":
 		return nil, errors.New("verif: connection reset")
+	case "hang":
+		// the server never answers: the attempt ends when the caller's context does (in-flight cancellation)
+		t.mu.Unlock()
+		<-req.Context().Done()
+		t.mu.Lock()
+		return nil, req.Context().Err()
 	case "neterr-dl":
 		// what http.Client.Timeout / a dial timeout look like: a transport error that *wraps* context.DeadlineExceeded
 		// although the caller's context is alive
@@ -90,12 +97,14 @@ func (t *c13Transport) RoundTrip(req *http.Request) (*http.Response, error) {
 	}
 }
 
-func c13ZeroNB(t time.Time) string {
-	if t.IsZero() {
-		return "-4611686018427387904"
-	}
-	return fmt.Sprint(t.UnixNano())
+// c13NS renders an instant as exact decimal nanoseconds since the Unix epoch (the zero time.Time and instants beyond
+// 2262 do not fit UnixNano).
+func c13NS(t time.Time) string {
+	v := new(big.Int).Mul(big.NewInt(t.Unix()), big.NewInt(1000000000))
+	return v.Add(v, big.NewInt(int64(t.Nanosecond()))).String()
 }
+
+func c13ZeroNB(t time.Time) string { return c13NS(t) }
 
 func TestVerifC13(t *testing.T) {
 	out := verifkit.Open()
@@ -167,7 +176,7 @@ func TestVerifC13(t *testing.T) {
 					e = c13Resp{kind: "st", status: []int{429, 503}[rr.Intn(2)]}
 					switch rr.Intn(6) {
 					case 0:
-						s := []int{0, 1, 2, 30, 200, 3600}[rr.Intn(6)]
+						s := []int{0, 1, 2, 30, 200, 3600, 86400 * 365, 9223372036, 9223372037, 18446744074}[rr.Intn(10)]
 						e.ra, e.raDesc = fmt.Sprint(s), fmt.Sprintf("secs %d", s)
 					case 1:
 						e.ra, e.raDesc = "-1", "secs -1"
@@ -181,6 +190,9 @@ func TestVerifC13(t *testing.T) {
 					e = c13Resp{kind: "st", status: []int{400, 404, 500, 502, 504, 201, 204, 403, 501}[rr.Intn(9)]}
 				case 9:
 					e = c13Resp{kind: "redir", redir: []int{301, 302, 303, 307, 308}[rr.Intn(5)]}
+					if rr.Intn(4) == 0 {
+						e = c13Resp{kind: "hang"}
+					}
 				default:
 					e = c13Resp{kind: "ok"}
 				}
@@ -274,10 +286,12 @@ func TestVerifC13(t *testing.T) {
 					if e.kind == "st" && strings.HasPrefix(e.raDesc, "secs ") {
 						var s int
 						fmt.Sscanf(e.raDesc, "secs %d", &s)
-						if u := tr.times[i].Add(time.Duration(s) * time.Second); u.After(until) {
+						if s > 9000000000 { // more than a Duration can hold: "as long as representable"
+							until = time.Unix(1<<62, 0)
+						} else if u := tr.times[i].Add(time.Duration(s) * time.Second); u.After(until) {
 							until = u
 						}
-						if s >= 0 && gap < time.Duration(s)*time.Second {
+						if s >= 0 && int64(gap/time.Second) < int64(s) && !(s > 9000000000 && gap > 200*365*24*time.Hour) {
 							out.Fail(key, fmt.Sprintf("retried %v after a Retry-After of %d s", gap, s))
 						}
 					}
@@ -304,6 +318,8 @@ func TestVerifC13(t *testing.T) {
 					}
 				} else {
 					switch {
+					case e.kind == "hang" && outcome != "ctx":
+						out.Fail(key, "the attempt was still in flight when the context ended, but the result is "+outcome)
 					case outcome == "ctx":
 						if ctx.Err() == nil {
 							out.Fail(key, "a context error was returned although the caller's context is still alive")
@@ -335,6 +351,70 @@ func TestVerifC13(t *testing.T) {
 				out.Count("class:returned-" + strings.Fields(outcome)[0])
 			}
 			out.Add("class:requests", int64(len(tr.served)))
+		})
+	}
+
+	// ---------- (c) concurrent submissions sharing one client (one shared back-off), in virtual time, race detector on
+	nc := verifkit.N(40, 1500)
+	for it := 0; it < nc; it++ {
+		rr := r.Fork()
+		synctest.Run(func() {
+			outage := 1 + rr.Intn(12) // the first `outage` requests (whoever sends them) get 503 / 429 / a network error
+			callers := 2 + rr.Intn(4)
+			var script []c13Resp
+			for i := 0; i < outage; i++ {
+				switch rr.Intn(4) {
+				case 0:
+					script = append(script, c13Resp{kind: "neterr"})
+				case 1:
+					script = append(script, c13Resp{kind: "st", status: 429, ra: "2", raDesc: "secs 2"})
+				default:
+					script = append(script, c13Resp{kind: "st", status: 503, raDesc: "-"})
+				}
+			}
+			for i := 0; i < 4*callers; i++ {
+				script = append(script, c13Resp{kind: "ok", raDesc: "-"})
+			}
+			tr := &c13Transport{script: script}
+			jc, err := New("http://log.example/ct", &http.Client{Transport: tr}, Options{Logger: c13Quiet{}})
+			if err != nil {
+				t.Fatal(err)
+			}
+			ctx, cancel := context.WithTimeout(context.Background(), time.Hour)
+			defer cancel()
+			tr.cancel = cancel
+			start := time.Now()
+			var wg sync.WaitGroup
+			errs := make([]error, callers)
+			for c := 0; c < callers; c++ {
+				wg.Add(1)
+				go func(c int) {
+					defer wg.Done()
+					var rsp struct{ V int }
+					_, _, errs[c] = jc.PostAndParseWithRetry(ctx, "/add", map[string]int{"a": c}, &rsp)
+				}(c)
+			}
+			wg.Wait()
+			key := fmt.Sprintf("concurrent callers=%d outage=%d", callers, outage)
+			for c, e := range errs {
+				if e != nil {
+					out.Fail(key, fmt.Sprintf("caller %d returned %v although the log recovered", c, e))
+				}
+			}
+			if tr.storm {
+				out.Fail(key, "retry storm")
+			}
+			if n := len(tr.served); n > outage+callers {
+				out.Fail(key, fmt.Sprintf("%d requests for %d callers after an outage of %d", n, callers, outage))
+			}
+			b := jc.backoff.(*backoff)
+			if b.multiplier > maxMultiplier {
+				out.Fail(key, "shared multiplier above maxMultiplier")
+			}
+			if el := time.Since(start); el > time.Duration(outage+1)*(128*time.Second+maxJitter)+time.Duration(outage)*2*time.Second {
+				out.Fail(key, fmt.Sprintf("%v to get through an outage of %d requests", el, outage))
+			}
+			out.Count("class:concurrent-scenario")
 		})
 	}
 }
